@@ -429,6 +429,24 @@ pub fn run_impl(docs: &[Vec<u8>], cfg: &RCfg, tab: &mut ErrTab) -> ImplResult {
         },
     }
 }
+/// run_impl on a separate thread with a watchdog: a hang is an outcome, not a stuck harness
+pub fn run_impl_guarded(docs: &[Vec<u8>], cfg: &RCfg, tab: &mut ErrTab, secs: u64) -> ImplResult {
+    let (tx, rx) = std::sync::mpsc::channel();
+    let d = docs.to_vec();
+    let c = *cfg;
+    let mut t = tab.clone();
+    let _ = std::thread::Builder::new().stack_size(16 << 20).spawn(move || {
+        let r = run_impl(&d, &c, &mut t);
+        let _ = tx.send((r, t));
+    });
+    match rx.recv_timeout(std::time::Duration::from_secs(secs)) {
+        Ok((r, t)) => {
+            *tab = t;
+            r
+        }
+        Err(_) => ImplResult::Other(format!("no result within {} s (hang or crash of the worker thread)", secs)),
+    }
+}
 pub fn panic_msg(p: &Box<dyn std::any::Any + Send>) -> String {
     if let Some(s) = p.downcast_ref::<&str>() {
         s.to_string()
